@@ -125,6 +125,10 @@ func (r *Reader) Meta() *indexmeta.Meta {
 	return r.meta
 }
 
+// maxHeaderSize bounds the header size read from the file before it is used as an allocation size.
+// A header holds the magic, the version, the metadata and at most 65536 (prefix, offset) pairs of 10 bytes.
+const maxHeaderSize = 8 << 20
+
 func readHeaderSize(reader io.ReaderAt) (int64, error) {
 	// read header size:
 	headerSizeBuf := make([]byte, 4)
@@ -140,6 +144,9 @@ func readHeader(reader io.ReaderAt) (*bucketToOffset, *indexmeta.Meta, int64, er
 	headerSize, err := readHeaderSize(reader)
 	if err != nil {
 		return nil, nil, 0, fmt.Errorf("failed to read header size: %w", err)
+	}
+	if headerSize > maxHeaderSize {
+		return nil, nil, 0, fmt.Errorf("invalid header size: %d", headerSize)
 	}
 	// read header bytes:
 	headerBuf := make([]byte, headerSize)
